@@ -425,18 +425,51 @@ def install(spec: Spec):
             callsites={'handler(event)': {'model': handler_call_model, 'ghost_writes': ['invoked'], 'suspends': True}},
             ensures=[
                 ('invoked_once', 'invoked == old(invoked) + 1', ['C01']),
-                ('result_recorded', HR + ".status == 'completed' or " + HR + ".status == 'error'", ['C01', 'C12']),
+                ('result_recorded', "hid(self, handler) in event.event_results and (" + HR + ".status == 'completed' or " + HR + ".status == 'error') and " + HR + ".started_at is not None", ['C01', 'C12']),
             ],
             raises=[
                 RaisesClause('RuntimeError', label='already_started', tags=['C01'], origin='raise@',
                              when=HR.replace('event.', 'old(event).') if False else None,
-                             ensures=[('not_invoked_again', 'invoked == old(invoked)', ['C01'])]),
+                             ensures=[('not_invoked_again', 'invoked == old(invoked)', ['C01']),
+                                      ('had_started_result', "hid(self, handler) in event.event_results and " + HR + ".started_at is not None", ['C01'])]),
                 RaisesClause('Exception', label='handler_error', tags=['C11'], origin='user:handler',
                              ensures=[('invoked_once', 'invoked == old(invoked) + 1', ['C01']),
-                                      ('error_recorded', HR + ".status == 'error' and " + HR + '.error is raised', ['C11'])]),
+                                      ('error_recorded', "hid(self, handler) in event.event_results and " + HR + ".status == 'error' and " + HR + '.error is raised and ' + HR + ".started_at is not None", ['C11'])]),
                 RaisesClause('TimeoutError', label='handler_timeout', tags=['C10'], origin='raise@',
-                             ensures=[('timeout_recorded', HR + ".status == 'error' and " + HR + '.error is raised', ['C10'])]),
+                             ensures=[('timeout_recorded', "hid(self, handler) in event.event_results and " + HR + ".status == 'error' and " + HR + '.error is raised and ' + HR + ".started_at is not None", ['C10'])]),
                 RaisesClause('CancelledError', label='interrupted', tags=['C10', 'C16']),
+                RaisesClause('CancelledError', label='handler_raised_cancellederror', tags=['C11'], caller_only=True, delivered=False),
                 RaisesClause('ValueError', label='not_callable', origin='raise@'),
             ])
     spec.methods[('EventBus', 'execute_handler')] = 'EventBus.execute_handler'
+
+    # ------------------------------------------------------------------ _execute_handlers (C01 C10 C11), serial buses
+    spec.ghosts['eh_calls'] = parse_ty('int')     # execute_handler activations started by this task (task-owned)
+
+    def eh_pre(ex, n):
+        ex.ghost_set('eh_calls', mk_int(ex.ghost('eh_calls').term + 1))
+
+    def only_task_cancellation_escapes(ex, outcome, result, exc):
+        # C11: an exception raised by a handler - including a CancelledError it raises itself - must not escape and skip the siblings;
+        # a CancelledError may leave only if this task really was cancelled
+        if outcome == 'raise':
+            is_cancel = smt.issub(smt.tag(exc.exc.term), smt.CLASSES['CancelledError'])
+            ex.oblige('raises', 'cancellederror_only_if_task_cancelled', z3.Implies(is_cancel, z3.BoolVal(bool(ex.st.flags.get('cancelled')))), ['C11'],
+                      meta={'origin': exc.origin})
+
+    HK = 'forall(lambda k: implies(k in handlers, hid(self, handlers[k]) == k), "str")'
+    spec.fn('EventBus._execute_handlers', file=S, qual='EventBus._execute_handlers', is_async=True, interference='handlers',
+            params={'self': 'EventBus', 'event': 'BaseEvent', 'handlers': 'dict[str,Handler]', 'timeout': 'opt[real]'}, returns='NoneType',
+            requires=[('lock_held', "ctx('holds_global_lock')", ['C06']), ('in_loop', 'loop_running()', []),
+                      ('serial_bus', 'not self.parallel_handlers', []),
+                      ('keys_are_handler_ids', HK.replace('"str"', "'str'"), ['C01']), ('handlers_is_a_dict', 'wf_dict(handlers)', [])],
+            modifies=[('event_results', '*'), ('status', '*'), ('result', '*'), ('error', '*'), ('started_at', '*'), ('completed_at', '*'), ('_handler_completed_signal', '*'),
+                      ('ev_set', '*'), ('task_done', '*'), ('task_cancel_requested', '*'), ('event_processed_at', '*'), ('_event_completed_signal', '*')],
+            ghost_modifies=['invoked', 'eh_calls'],
+            callsites={'self.execute_handler': {'pre': eh_pre, 'ghost_writes': ['eh_calls']}},
+            loops={1: {'inv': [('each_once_so_far', 'eh_calls == old(eh_calls) + loop_i', ['C01'])]},
+                   2: {'inv': [('each_once_so_far', 'eh_calls == old(eh_calls) + loop_i', ['C01'])]}},
+            exit_hook=only_task_cancellation_escapes,
+            ensures=[('each_handler_executed_once', 'eh_calls == old(eh_calls) + len(handlers)', ['C01', 'C11', 'C10'])],
+            raises=[RaisesClause('CancelledError', label='task_cancelled', tags=['C16'])])
+    spec.methods[('EventBus', '_execute_handlers')] = 'EventBus._execute_handlers'
